@@ -20,7 +20,7 @@ PROPS = {
     "C03": dict(
         level_text="Proof (Verus, unbounded) that each address codec under contract is exact: the RPFM attribute codec (encode_address / decode_address / make_header / from_buffer) satisfies decode(encode(a)) == a for every representable address (lemma_addr_roundtrip, lemma_frame_roundtrip), decoders return exactly the bytes on the wire (strict UTF-8), and unrepresentable destinations must be refused (clause [B]; currently a KNOWN-FINDING for the RPFM header).",
         level_note="Trusted: bytes / String / std::net shims, Verus/Z3. Codecs not listed in evidence.functions_under_contract (HTTP CONNECT text line, numeric host:port re-parse) are not covered.",
-        verus_units=["frames"],
+        verus_units=["frames", "socks"],
         level="proof",
         assumptions=A_COMMON + ["A4: Strings are opaque UTF-8 byte sequences (string_bytes); number/IP Display formatting is trusted"],
         trusted=["bytes, String, std::net contracts (shims/bytes.rs, strings.rs, net.rs)"],
@@ -36,7 +36,7 @@ PROPS = {
     "C12": dict(
         level_text="Proof (Verus, unbounded): StreamFrameReader::read is verified against a ghost byte stream (read-ahead buffer ++ socket input) with AsyncRead::read returning ANY 1..n bytes per call; loop invariant: the logical stream is unchanged until a frame is returned; postcondition: the returned frame is frame_parse of the first complete frame of the stream and exactly its bytes are consumed; Ok(None) only at end of input with no complete frame left. Termination is proved (decreases on remaining input).",
         level_note="Trusted: AsyncRead::read contract (A3), bytes shims, Verus/Z3.",
-        verus_units=["frames"],
+        verus_units=["frames", "socks"],
         level="proof",
         assumptions=A_COMMON + ["A3: tokio AsyncReadExt::read returns between 1 and min(buf.len, available) bytes, 0 only at end of input"],
         trusted=["bytes, tokio AsyncRead contracts (shims/bytes.rs, io.rs)"],
@@ -45,7 +45,7 @@ PROPS = {
         _x=0,
         level_text="Proof of panic-freedom (no overflow trap, shift overflow, out-of-bounds index, unwrap on None/Err, division by zero, dependency precondition such as Bytes::split_to) for every peer-fed decoder function listed in evidence.functions_under_contract, for all inputs. The 'wedge/liveness' half of the property is not claimed.",
         level_note="Trusted: dependency contracts (shims), Verus/Z3; functions not listed in the evidence are not covered.",
-        verus_units=["fragment", "frames"],
+        verus_units=["fragment", "frames", "socks"],
         level="proof",
         assumptions=A_COMMON,
         trusted=["bytes::Bytes/BytesMut/Buf contracts (shims/bytes.rs)"],
